@@ -135,12 +135,19 @@ def execute(script):
             bid = builder.chain.blocks  # noqa
             from refmodel import rules
             bid = rules.block_id(b)
-            if rng_p.random() < 0.5:
-                cs = cs.add_block(b, b.header.summary.timestamp)
-                res.bump('delivered_validated')
-            else:
-                cs = cs.add_block_no_validation(b)
-                res.bump('delivered_novalidation')
+            try:
+                if rng_p.random() < 0.5:
+                    cs = cs.add_block(b, b.header.summary.timestamp)
+                    res.bump('delivered_validated')
+                else:
+                    cs = cs.add_block_no_validation(b)
+                    res.bump('delivered_novalidation')
+            except Exception as e:
+                # the same block was accepted on the builder's arrival order
+                res.violate(PROP, 'C03/block-not-addable-in-another-arrival-order',
+                            'receiver %d: a block of the tree (accepted in the order it was built) raised %s when its turn came in '
+                            'another parent-before-child order' % (rn, type(e).__name__))
+                break
             have.add(bid)
             delivered += 1
             trace.add('r', rn, bid)
